@@ -66,12 +66,16 @@ def known_active(fid):
 
 
 def ambiguous_roles(real):
-    """Roles whose reification concept dereifies to several roles."""
+    """Roles whose reification cannot be told from another role's: same
+    concept and the same unordered pair of source/target roles (dereify()
+    accepts either orientation).  Two roles that share a concept but use
+    different argument roles (AMR :employed-by / :role) are NOT ambiguous."""
     out = set()
     for role, specs in real.reifications.items():
-        concept = specs[0][0]
-        if len(real.dereifications.get(concept, [])) > 1:
-            out.add(role)
+        concept, src, tgt = specs[0]
+        for other, osrc, otgt in real.dereifications.get(concept, []):
+            if other != role and {osrc, otgt} == {src, tgt}:
+                out.add(role)
     return out
 
 
